@@ -39,6 +39,11 @@ type frame struct {
 	pos    token.Pos
 }
 
+type trailEntry struct {
+	cond  *sym.Term
+	taken bool
+}
+
 type phiMerge struct {
 	cond         *sym.Term
 	predT, predF *ssa.BasicBlock
@@ -113,6 +118,8 @@ type Interp struct {
 	pathNotes    []string
 	lastPanic    string
 	recordExtern bool
+	summarizing  bool
+	sumTrail     []trailEntry
 	externCalls  []string
 	obs          []Obs
 	onceDone     map[*Cell]bool
@@ -120,6 +127,8 @@ type Interp struct {
 	lowerApps    []*sym.Term
 	lowerAxioms  []*sym.Term
 	atomVars     map[string]bool
+	lineVars     []*sym.Term
+	Summarize    map[string]bool // pure callees whose paths are merged into one value
 
 	// hooks for the string layers
 	SymStrSliceHook func(in *Interp, s *SymStr, lo, hi int) Value
@@ -147,7 +156,7 @@ func NewInterp(prog *ssa.Program, bank *sym.Bank, pool *sym.Pool) *Interp {
 	in := &Interp{Prog: prog, B: bank, Pool: pool, WordBits: 64, GOARCH: "amd64", GOOS: "linux",
 		Globals: map[*ssa.Global]*Cell{}, InterpPkgs: map[string]bool{}, Intrinsics: map[string]IntrinsicFn{},
 		Host: map[string]HostFn{}, Redirect: map[string]string{}, SkipInit: map[string]bool{}, TraceFns: map[string]bool{},
-		Params: map[string]interface{}{}, OpenKnown: map[string]bool{}, MapOrder: "asc", MaxPaths: 4096, MaxSteps: 200_000_000, MaxDecide: 400,
+		Params: map[string]interface{}{}, OpenKnown: map[string]bool{}, Summarize: map[string]bool{}, MapOrder: "asc", MaxPaths: 4096, MaxSteps: 200_000_000, MaxDecide: 400,
 		atomCodes: map[string]uint64{}, lowerFacts: map[string]bool{}}
 	in.resetInstance()
 	registerIntrinsics(in)
@@ -208,6 +217,7 @@ func (in *Interp) SetBank(b *sym.Bank) {
 	in.lowerUsed = false
 	in.lowerApps = nil
 	in.lowerAxioms = nil
+	in.lineVars = nil
 }
 
 func (in *Interp) where() string {
@@ -426,6 +436,7 @@ func (in *Interp) runPath(fn *ssa.Function, prefix []int) {
 	in.onceDone = nil
 	in.lastPanic = ""
 	in.recordExtern = false
+	in.summarizing = false
 	in.externCalls = nil
 	kind := "done"
 	func() {
@@ -528,10 +539,24 @@ func (in *Interp) branch(cond *sym.Term) bool {
 		} else {
 			in.addPC(ncond)
 		}
+		if in.summarizing {
+			in.sumTrail = append(in.sumTrail, trailEntry{cond, d == 1})
+		}
 		return d == 1
 	}
 	if len(in.decisions) >= in.MaxDecide {
 		panic(pathEnd{kind: "unwind", msg: fmt.Sprintf("more than %d symbolic decisions on one path", in.MaxDecide)})
+	}
+	if in.summarizing {
+		// inside a summarised callee both sides are explored without asking the solver: an
+		// infeasible side only adds a dead branch to the merged ite
+		alt := append(append([]int(nil), in.decisions...), 0)
+		in.work = append(in.work, alt)
+		in.decisions = append(in.decisions, 1)
+		in.decPos++
+		in.addPC(cond)
+		in.sumTrail = append(in.sumTrail, trailEntry{cond, true})
+		return true
 	}
 	var tf, ff bool
 	if v, ok := in.modelSays(cond); ok {
@@ -688,6 +713,9 @@ func (in *Interp) callFunction(fn *ssa.Function, args []Value, env []Value, site
 	if len(in.stack) > 200 {
 		in.unmodelled("call depth > 200")
 	}
+	if in.Summarize[name] && !in.summarizing {
+		return in.summarize(fn, args, env)
+	}
 	var rec *TraceEntry
 	if in.TraceFns[name] {
 		in.trace = append(in.trace, TraceEntry{Callee: name, Args: args})
@@ -713,6 +741,88 @@ func (in *Interp) calledFrom(name string) bool {
 		return in.stack[n-1].fn.Name() == name
 	}
 	return false
+}
+
+// summarize explores all paths of a pure callee (configured by name) and
+// merges its scalar results into one ite tree over the branch conditions
+// instead of forking the caller.
+func (in *Interp) summarize(fn *ssa.Function, args []Value, env []Value) Value {
+	in.summarizing = true
+	savedDec, savedPos, savedWork, savedModel := in.decisions, in.decPos, in.work, in.model
+	basePC := len(in.pc)
+	depth := len(in.stack)
+	type res struct {
+		trail []trailEntry
+		val   *sym.Term
+	}
+	var results []res
+	var escaped interface{}
+	work := [][]int{nil}
+	for len(work) > 0 && escaped == nil {
+		pre := work[len(work)-1]
+		work = work[:len(work)-1]
+		in.decisions = append([]int(nil), pre...)
+		in.decPos = 0
+		in.work = nil
+		in.model = nil
+		in.sumTrail = nil
+		var val Value
+		func() {
+			defer func() {
+				if r := recover(); r != nil {
+					escaped = r
+					in.stack = in.stack[:depth]
+				}
+			}()
+			val = in.interpret(fn, args, env)
+		}()
+		if escaped == nil {
+			t, ok := val.(*sym.Term)
+			if !ok {
+				escaped = pathEnd{kind: "unmodelled", msg: "summarised callee " + fn.String() + " returns a non-scalar"}
+			}
+			results = append(results, res{append([]trailEntry(nil), in.sumTrail...), t})
+			work = append(work, in.work...)
+		}
+		for _, t := range in.pc[basePC:] {
+			delete(in.pcSet, t.ID)
+		}
+		in.pc = in.pc[:basePC]
+		if len(results) > 512 {
+			escaped = pathEnd{kind: "unwind", msg: "more than 512 paths in summarised callee " + fn.String()}
+		}
+	}
+	in.decisions, in.decPos, in.work, in.model = savedDec, savedPos, savedWork, savedModel
+	in.summarizing = false
+	in.sumTrail = nil
+	if escaped != nil {
+		panic(escaped)
+	}
+	in.FuncSym[fn.String()] = true
+	in.Stubs["summary (all paths merged into one term): "+fn.String()]++
+	var merge func(rs []res, d int) *sym.Term
+	merge = func(rs []res, d int) *sym.Term {
+		if len(rs) == 1 {
+			return rs[0].val
+		}
+		c := rs[0].trail[d].cond
+		var yes, no []res
+		for _, r := range rs {
+			if r.trail[d].taken {
+				yes = append(yes, r)
+			} else {
+				no = append(no, r)
+			}
+		}
+		if len(yes) == 0 {
+			return merge(no, d+1)
+		}
+		if len(no) == 0 {
+			return merge(yes, d+1)
+		}
+		return in.B.Ite(c, merge(yes, d+1), merge(no, d+1))
+	}
+	return merge(results, 0)
 }
 
 func (in *Interp) isRT(fn *ssa.Function) bool {
